@@ -86,6 +86,7 @@ pub fn exec(case: &ThrCase) -> RunOut {
         Ok(x) => x,
         Err(_) => {
             out.count("construction_failed", 1);
+            out.count(&format!("construction_failed.{}", case.spec.kind_name()), 1);
             out.digest = 3;
             return out;
         }
